@@ -60,6 +60,26 @@ THEOREMS = {
         "theorems": ["Abnf.C18.dispatch_present", "Abnf.C18.dispatch_absent", "Abnf.C18.leaf_dispatches_on_literal",
                      "Abnf.C18.key_case_insensitive", "Abnf.C18.key_is_lowercase_underscore", "Abnf.C18.eq_iff_structural"],
     },
+    "C14": {
+        "modules": ["Abnf.Theorems.C14"],
+        "theorems": ["Abnf.C14.unfoldE_frame", "Abnf.C14.flag_write_frame", "Abnf.C14.import_copy_fresh"],
+    },
+    "C05": {
+        "modules": ["Abnf.Theorems.C01", "Abnf.Theorems.C12"],
+        "theorems": ["Abnf.C01.reported_end_is_derivable", "Abnf.closed_noGerr"],
+    },
+    "C09": {
+        "modules": ["Abnf.Theorems.C01", "Abnf.Theorems.C12", "Abnf.Theorems.C11"],
+        "theorems": ["Abnf.C01.reported_end_is_derivable", "Abnf.closed_noGerr", "Abnf.C11.first_match"],
+    },
+    "C15": {
+        "modules": ["Abnf.Theorems.C01"],
+        "theorems": ["Abnf.C01.reported_end_is_derivable"],
+    },
+    "C19": {
+        "modules": ["Abnf.Theorems.C01"],
+        "theorems": ["Abnf.C01.reported_end_is_derivable"],
+    },
     "C16": {
         "modules": ["Abnf.Theorems.C16"],
         "theorems": ["Abnf.C16.size_le_limit", "Abnf.C16.lookup_most_recent_or_miss", "Abnf.C16.lookup_never_other_key",
